@@ -54,7 +54,46 @@ func init() {
 	})
 }
 
+// c12Gaps: lead x value x every blank run of <= 3 (thorough 4) over {space, tab, LF, CR} x
+// tail: where the value ends does not depend on which blanks follow it.
+func c12Gaps(w *core.W) {
+	maxGap := 3
+	if w.Thorough() {
+		maxGap = 4
+	}
+	var gaps []string
+	var gen func(p string)
+	gen = func(p string) {
+		gaps = append(gaps, p)
+		if len(p) == maxGap {
+			return
+		}
+		for _, c := range []string{" ", "\t", "\n", "\r"} {
+			gen(p + c)
+		}
+	}
+	gen("")
+	var i int64
+	for _, lead := range []string{"", " ", "\r\n", "\t\r"} {
+		for _, val := range []string{`{}`, `42`, `null`, `"s"`, `[1]`, `-0.5`, `{"a":[true]}`, `0`} {
+			for _, gap := range gaps {
+				i++
+				if !w.Mine(i) {
+					continue
+				}
+				for _, tail := range []string{"", "x", "// c", "{", ",", "\"", "]"} {
+					c12Case(w, []byte(lead+val+gap+tail), "gaps")
+				}
+			}
+		}
+	}
+	if w.Shard == 0 {
+		w.Count("gap_documents", i*7)
+	}
+}
+
 func c12Run(w *core.W) {
+	c12Gaps(w)
 	N := c12N(w.Tier)
 	e := &seq.Enum{Tokens: c12Tokens, N: N, W: w}
 	e.Run(func(s []byte, ntok int, own bool) bool {
